@@ -193,7 +193,8 @@ def run_c23(ctx, replay_path=None):
     sessions, honest = [], []
     for _, ops in ctx.corpus():
         sessions.append(ops)
-        honest.append(not any(o.startswith("resched ") or o.split()[0] in ("add", "sub", "mul", "div", "ppm") for o in ops) and "#class" not in ops[0])
+        honest.append(not any(o.startswith("resched ") or o.split()[0] in ("add", "sub", "mul", "div", "ppm")
+                                  or (o.startswith("plan ") and int(o.split()[1]) > 499) for o in ops))
     per_cfg = 60 if ctx.thorough else 8
     for cfg in ALL_CFGS:
         for _ in range(per_cfg * (3 if cfg & 1 and cfg != 32 else 1)):
